@@ -274,15 +274,86 @@ def cleanupStale (cfg : Cfg St Upd) (sc : Sched) (lazy : Bool) (w : World St Upd
   | none => (l.1, false)
   | some names => cleanupStaleLoop cfg sc lazy names l.1
 
-/-- mirrors persist.rs::archive_persisted_channel: read with updates, write the archive copy (no
-    sentinel), then lazily remove the live monitor key; every failure just returns -/
+/-- mirrors persist.rs::maybe_read_monitor on its own: the stored full monitor, no update applied -/
+def readMonOnly (cfg : Cfg St Upd) (sc : Sched) (w : World St Upd) (name : String) :
+    World St Upd × Except RdErr (Mon St) :=
+  if !cfg.nameOk name then (w, .error .badName) else
+  let r := kRead sc w (monKey name)
+  match r.2 with
+  | none => (r.1, .error .io)
+  | some v => (r.1, decodeMon name v)
+
+/-- the read `archive_persisted_channel` starts with — WHICH one is translated from persist.rs
+    (`archiveAppliesUpdates`: `read_channel_monitor_with_updates` vs `maybe_read_monitor`) -/
+def archiveRead (cfg : Cfg St Upd) (sc : Sched) (w : World St Upd) (name : String) :
+    World St Upd × Except RdErr (Mon St) :=
+  if archiveAppliesUpdates then readWithUpdates cfg sc w name else readMonOnly cfg sc w name
+
+/-- mirrors persist.rs::archive_persisted_channel: read (see `archiveRead`), write the archive copy (no
+    sentinel), then remove the live monitor key; every failure just returns. Whether a failed archive
+    write stops the function (`archiveRemoveAfterWriteOk`) and the laziness of the removal
+    (`archiveRemoveLazy`) are translated from persist.rs. -/
 def archive (cfg : Cfg St Upd) (sc : Sched) (w : World St Upd) (name : String) : World St Upd :=
-  let a := readWithUpdates cfg sc w name
+  let a := archiveRead cfg sc w name
   match a.2 with
   | .error _ => a.1
   | .ok m =>
     let b := kWrite sc a.1 (archKey name) (.mon false name m)
-    if b.2 then (kRemove sc b.1 (monKey name) true).1 else b.1
+    if b.2 || !archiveRemoveAfterWriteOk then (kRemove sc b.1 (monKey name) archiveRemoveLazy).1 else b.1
+
+/-! ### pure reading of the recovery functions (no world threading): what a healthy store answers -/
+
+/-- `maybe_read_channel_monitor_with_updates` as a function of the three things it looks at: the
+    listing of the monitor's update namespace, the stored monitor, the stored updates -/
+def recoverPure (cfg : Cfg St Upd) (name : String) (names : List String) (mon : Option (PVal St Upd))
+    (upd : Nat → Option (PVal St Upd)) : Except RdErr (Mon St) :=
+  if !cfg.nameOk name then .error .badName else
+  match mon with
+  | none => .error .io
+  | some v =>
+    match decodeMon name v with
+    | .error e => .error e
+    | .ok m =>
+      match idsToLoad names m.id with
+      | none => .error .badUpdateName
+      | some ids => applyAll cfg m (ids.map upd)
+
+/-- what recovery returns for monitor `name` from store `s` -/
+def recover (cfg : Cfg St Upd) (s : Store (PVal St Upd)) (name : String) : Except RdErr (Mon St) :=
+  recoverPure cfg name (s.names CHANNEL_MONITOR_UPDATE_PERSISTENCE_PRIMARY_NAMESPACE name) (s.get (monKey name))
+    (fun id => s.get (updKey name id))
+
+/-- first error in list order, else all results (the `result?` loop of read_all_channel_monitors_with_updates) -/
+def collect : List (String × Except RdErr (Mon St)) → Except RdErr (List (String × Mon St))
+  | [] => .ok []
+  | (nm, r) :: rest =>
+    match r, collect rest with
+    | .error e, _ => .error e
+    | .ok _, .error e => .error e
+    | .ok m, .ok l => .ok ((nm, m) :: l)
+
+/-! ### several monitors: the persister calls on ONE monitor, as world transformers -/
+
+inductive Call (St Upd : Type) where
+  | persistNew (m : Mon St)
+  | updatePersisted (upd : Option (Nat × Upd)) (m : Mon St)
+  | archive
+  | cleanupTo (latest : Nat) (lazy : Bool)
+
+def applyCall (cfg : Cfg St Upd) (sc : Sched) (w : World St Upd) (c : String × Call St Upd) : World St Upd :=
+  match c.2 with
+  | .persistNew m => (persistNew cfg sc w c.1 m).1
+  | .updatePersisted u m => (updatePersisted cfg sc w c.1 u m).1
+  | .archive => archive cfg sc w c.1
+  | .cleanupTo latest lazy => (cleanupTo sc w c.1 latest lazy).1
+
+/-- any interleaving of calls on any monitors -/
+def runCalls (cfg : Cfg St Upd) (sc : Sched) (w : World St Upd) (l : List (String × Call St Upd)) : World St Upd :=
+  l.foldl (applyCall cfg sc) w
+
+/-- the keys that belong to monitor `name` -/
+def ownKey (name : String) (k : Key) : Prop :=
+  k = monKey name ∨ k = archKey name ∨ (k.1 = CHANNEL_MONITOR_UPDATE_PERSISTENCE_PRIMARY_NAMESPACE ∧ k.2.1 = name)
 
 /-! ### a node's life: the calls `ChainMonitor` makes, until the first `UnrecoverableError`
     (chainmonitor.rs panics on it) or an out-of-order update (channelmonitor.rs panics) -/
